@@ -1,9 +1,1459 @@
-//! C16 — stub, to be written.
+//! C16 — exclusion markers: tie `FileFilter::create` and the removal loop of `rewrite_paths` to the
+//! Lean model (driver `gm_c16`, component FileFilter) and evaluate an independent re-statement of
+//! the property on the implementation's own output.
+//!
+//! What is trusted here: the `regex` crate (`is_match` per line; the six match bits sent to the
+//! model are computed by this harness with its own compiled regexes) and this file's line
+//! splitter (`split_lines`: split at LF, drop one trailing CR; the text after the last LF is a
+//! line, as with `str::split('\n')`).
 use corrlib::*;
+use grcov::{CovResult, FileFilter, FilterType, Function};
+use regex::Regex;
+use serde_json::{json, Value};
+use std::collections::{BTreeMap, BTreeSet};
+use std::panic::AssertUnwindSafe;
+use std::path::{Path, PathBuf};
 
-pub fn run(_rep: &mut Report) {}
-pub fn replay(_rep: &mut Report, _case: &serde_json::Value) {}
+/// the one defect of the unchanged tree (file_filter.rs 93-117): a single-line marker of one
+/// dimension is ignored on a line that lies inside a region of the other dimension only
+const FINDING: &str = "C16-marker-inside-other-region";
+
+#[derive(Clone, Copy, PartialEq)]
+enum Place {
+    Front,
+    Mid,
+    End,
+}
+use Place::*;
+
+/// order everywhere: excl_line, excl_start, excl_stop, excl_br_line, excl_br_start, excl_br_stop
+struct PatSet {
+    name: &'static str,
+    pats: [&'static str; 6],
+    toks: [(&'static str, Place); 6],
+}
+
+static PATSETS: [PatSet; 4] = [
+    // the conventional literal markers
+    PatSet {
+        name: "lcov",
+        pats: [
+            "LCOV_EXCL_LINE",
+            "LCOV_EXCL_START",
+            "LCOV_EXCL_STOP",
+            "LCOV_EXCL_BR_LINE",
+            "LCOV_EXCL_BR_START",
+            "LCOV_EXCL_BR_STOP",
+        ],
+        toks: [
+            ("// LCOV_EXCL_LINE", Mid),
+            ("// LCOV_EXCL_START", Mid),
+            ("/* LCOV_EXCL_STOP */", Mid),
+            ("// LCOV_EXCL_BR_LINE", Mid),
+            ("// LCOV_EXCL_BR_START", Mid),
+            ("// LCOV_EXCL_BR_STOP", Mid),
+        ],
+    },
+    // anchored patterns: `$` only matches when the CR of a CRLF ending has been removed
+    PatSet {
+        name: "anchored",
+        pats: [
+            r"#L\b",
+            r"^\s*//<<",
+            r">>//$",
+            r"#B\b",
+            r"\[br-off\]",
+            r"\[br-on\]",
+        ],
+        toks: [
+            ("#L", Mid),
+            ("  //<<", Front),
+            (">>//", End),
+            ("#B", Mid),
+            ("[br-off]", Mid),
+            ("[br-on]", Mid),
+        ],
+    },
+    // the same regex for start and stop (every marker line matches both)
+    PatSet {
+        name: "shared",
+        pats: ["SKIP", "TOGGLE", "TOGGLE", "NOBR", "BRFLIP", "BRFLIP"],
+        toks: [
+            ("SKIP", Mid),
+            ("TOGGLE", Mid),
+            ("TOGGLE", Mid),
+            ("NOBR", Mid),
+            ("BRFLIP", Mid),
+            ("BRFLIP", Mid),
+        ],
+    },
+    // non-ASCII markers; the line marker matches empty lines (also the empty piece after a
+    // final newline and the blank line of a CRLF file)
+    PatSet {
+        name: "unicode",
+        pats: ["^$", "début", r"\bfin\b", "∀", "分岐開始", "分岐終了"],
+        toks: [
+            ("", Mid),
+            ("// début", Mid),
+            ("// fin", Mid),
+            ("/* ∀ */", Mid),
+            ("// 分岐開始", Mid),
+            ("// 分岐終了", Mid),
+        ],
+    },
+];
+
+const FILLERS: &[&str] = &[
+    "x = 1;",
+    "",
+    "  return f(a, b); // ünïcödé 名前",
+    "\t",
+    "y(); // LCOV_EXCL",
+    "a\rb",
+    "}",
+    "if (p && q) {",
+];
+
+/// one generated source line: the markers the generator places, a filler, a terminator
+/// eol: 0 "\n", 1 "\r\n", 2 "\r\r\n", 3 nothing (last line only), 4 "\r" (last line only)
+#[derive(Clone, Debug, PartialEq)]
+struct LineSpec {
+    want: [bool; 6],
+    filler: usize,
+    eol: u8,
+}
+
+fn render_line(ps: &PatSet, l: &LineSpec) -> String {
+    let mut parts: Vec<&str> = vec![];
+    for i in 0..6 {
+        if l.want[i] && ps.toks[i].1 == Front {
+            parts.push(ps.toks[i].0);
+        }
+    }
+    let f = FILLERS[l.filler % FILLERS.len()];
+    if !f.is_empty() {
+        parts.push(f);
+    }
+    for i in 0..6 {
+        if l.want[i] && ps.toks[i].1 == Mid && !ps.toks[i].0.is_empty() {
+            // the two toggles of the "shared" set are one token
+            if !parts.contains(&ps.toks[i].0) {
+                parts.push(ps.toks[i].0);
+            }
+        }
+    }
+    for i in 0..6 {
+        if l.want[i] && ps.toks[i].1 == End {
+            parts.push(ps.toks[i].0);
+        }
+    }
+    parts.join(" ")
+}
+
+fn render(ps: &PatSet, ls: &[LineSpec]) -> Vec<u8> {
+    let mut s = String::new();
+    for (i, l) in ls.iter().enumerate() {
+        s.push_str(&render_line(ps, l));
+        let last = i + 1 == ls.len();
+        s.push_str(match l.eol {
+            0 => "\n",
+            1 => "\r\n",
+            2 => "\r\r\n",
+            3 if last => "",
+            4 if last => "\r",
+            _ => "\n",
+        });
+    }
+    s.into_bytes()
+}
+
+/// the harness' own notion of "source line": bytes between LFs, one trailing CR removed
+fn split_lines(bytes: &[u8]) -> Vec<&[u8]> {
+    fn strip_cr(b: &[u8]) -> &[u8] {
+        if b.last() == Some(&b'\r') {
+            &b[..b.len() - 1]
+        } else {
+            b
+        }
+    }
+    let mut v = vec![];
+    let mut st = 0;
+    for i in 0..bytes.len() {
+        if bytes[i] == b'\n' {
+            v.push(strip_cr(&bytes[st..i]));
+            st = i + 1;
+        }
+    }
+    v.push(strip_cr(&bytes[st..]));
+    v
+}
+
+#[derive(Clone, Copy, PartialEq, Debug)]
+enum SrcKind {
+    Text,
+    NonUtf8,
+    Missing,
+    Dir,
+}
+impl SrcKind {
+    fn name(self) -> &'static str {
+        match self {
+            SrcKind::Text => "text",
+            SrcKind::NonUtf8 => "nonutf8",
+            SrcKind::Missing => "missing",
+            SrcKind::Dir => "dir",
+        }
+    }
+    fn parse(s: &str) -> SrcKind {
+        match s {
+            "nonutf8" => SrcKind::NonUtf8,
+            "missing" => SrcKind::Missing,
+            "dir" => SrcKind::Dir,
+            _ => SrcKind::Text,
+        }
+    }
+}
+
+#[derive(Clone)]
+struct Case {
+    opts: [bool; 6],
+    patset: usize,
+    kind: SrcKind,
+    /// the valid UTF-8 text the match bits are computed from
+    text: Vec<u8>,
+    /// what is written to the file (differs from `text` for NonUtf8)
+    file_bytes: Vec<u8>,
+    /// structured form, when the case came from the generator (for shrinking)
+    spec: Option<Vec<LineSpec>>,
+    cov: CovResult,
+    via_rewrite: bool,
+    origin: &'static str,
+}
+
+fn optstr(o: &[bool; 6]) -> String {
+    bits(o)
+}
+
+struct Regexes {
+    /// the harness' own instances (match bits)
+    mine: Vec<Vec<Regex>>,
+    /// separately compiled instances handed to grcov::FileFilter
+    theirs: Vec<Vec<Regex>>,
+}
+impl Regexes {
+    fn new() -> Regexes {
+        let comp = || {
+            PATSETS
+                .iter()
+                .map(|p| p.pats.iter().map(|s| Regex::new(s).unwrap()).collect())
+                .collect()
+        };
+        Regexes {
+            mine: comp(),
+            theirs: comp(),
+        }
+    }
+    fn filter(&self, c: &Case) -> FileFilter {
+        let r = &self.theirs[c.patset];
+        let o = |i: usize| if c.opts[i] { Some(r[i].clone()) } else { None };
+        FileFilter::new(o(0), o(1), o(2), o(3), o(4), o(5))
+    }
+    fn bits(&self, c: &Case) -> Vec<[bool; 6]> {
+        split_lines(&c.text)
+            .iter()
+            .map(|l| {
+                let s = std::str::from_utf8(l).expect("generator text is UTF-8");
+                let mut b = [false; 6];
+                for i in 0..6 {
+                    b[i] = self.mine[c.patset][i].is_match(s);
+                }
+                b
+            })
+            .collect()
+    }
+}
+
+fn bits_str(bs: &[[bool; 6]]) -> String {
+    if bs.is_empty() {
+        "-".into()
+    } else {
+        bs.iter().map(|b| bits(b)).collect::<Vec<_>>().join(",")
+    }
+}
+
+// ---------------------------------------------------------------------------------------------
+// The property, re-stated (quantifier form, no state machine, no grcov)
+
+struct Spec {
+    /// index 1..=len; index 0 unused
+    line: Vec<bool>,
+    branch: Vec<bool>,
+    line_marker: Vec<bool>,
+    br_marker: Vec<bool>,
+    in_line_region: Vec<bool>,
+    in_br_region: Vec<bool>,
+}
+
+fn in_region(start: &dyn Fn(usize) -> bool, stop: &dyn Fn(usize) -> bool, n: usize) -> bool {
+    (1..=n).any(|s| start(s) && ((s + 1)..=n).all(|t| !stop(t)))
+}
+
+fn spec_of(opts: &[bool; 6], bs: &[[bool; 6]], readable: bool) -> Spec {
+    let len = bs.len();
+    let m = |i: usize| move |n: usize| readable && opts[i] && bs[n - 1][i];
+    let mut s = Spec {
+        line: vec![false; len + 1],
+        branch: vec![false; len + 1],
+        line_marker: vec![false; len + 1],
+        br_marker: vec![false; len + 1],
+        in_line_region: vec![false; len + 1],
+        in_br_region: vec![false; len + 1],
+    };
+    for n in 1..=len {
+        s.line_marker[n] = m(0)(n);
+        s.br_marker[n] = m(3)(n);
+        s.in_line_region[n] = in_region(&m(1), &m(2), n);
+        s.in_br_region[n] = in_region(&m(4), &m(5), n);
+        s.line[n] = s.line_marker[n] || s.in_line_region[n];
+        s.branch[n] = s.br_marker[n] || s.in_br_region[n];
+    }
+    s
+}
+
+#[derive(PartialEq, Clone, Debug)]
+enum Verdict {
+    Holds,
+    /// every deviation is an instance of the named defect
+    Known(String),
+    Fails(String),
+}
+
+/// compare what the implementation removed with what the property says; `impl_line(n)` /
+/// `impl_branch(n)`: did the implementation remove the data of line n
+fn judge(
+    spec: &Spec,
+    phantom: Option<u32>,
+    keys: &mut dyn Iterator<Item = u32>,
+    impl_line: &dyn Fn(u32) -> bool,
+    impl_branch: &dyn Fn(u32) -> bool,
+) -> Verdict {
+    let len = spec.line.len() - 1;
+    let mut known = vec![];
+    for k in keys {
+        if Some(k) == phantom {
+            continue;
+        }
+        let n = k as usize;
+        let inside = n >= 1 && n <= len;
+        let want_l = inside && spec.line[n];
+        let want_b = inside && spec.branch[n];
+        let got_l = impl_line(k);
+        let got_b = impl_branch(k);
+        if got_l != want_l {
+            if want_l && !got_l && spec.line_marker[n] && spec.in_br_region[n] && !spec.in_line_region[n]
+            {
+                known.push(format!("line {}: line marker inside a branch region, line data kept", n));
+            } else {
+                return Verdict::Fails(format!(
+                    "line {}: line data {} but the markers say {}",
+                    k,
+                    if got_l { "removed" } else { "kept" },
+                    if want_l { "removed" } else { "kept" }
+                ));
+            }
+        }
+        if got_b != want_b {
+            if want_b && !got_b && spec.br_marker[n] && spec.in_line_region[n] && !spec.in_br_region[n]
+            {
+                known.push(format!(
+                    "line {}: branch-line marker inside a line region, branch data kept",
+                    n
+                ));
+            } else {
+                return Verdict::Fails(format!(
+                    "line {}: branch data {} but the markers say {}",
+                    k,
+                    if got_b { "removed" } else { "kept" },
+                    if want_b { "removed" } else { "kept" }
+                ));
+            }
+        }
+    }
+    if known.is_empty() {
+        Verdict::Holds
+    } else {
+        Verdict::Known(known.join("; "))
+    }
+}
+
+/// The empty piece after the final LF (or the single empty piece of an empty file) is a "line"
+/// for `split('\n')` and for the model, but not a source line: no coverage can belong to it, so
+/// the property does not say whether a key with that number is removed (don't care). A change of
+/// the code there (e.g. to `str::lines`) is a broken tie, not a violation.
+fn phantom_line(text: &[u8]) -> Option<u32> {
+    if text.is_empty() || text.last() == Some(&b'\n') {
+        Some(split_lines(text).len() as u32)
+    } else {
+        None
+    }
+}
+
+// ---------------------------------------------------------------------------------------------
+// Observations of the real code
+
+#[derive(Clone)]
+struct CreateObs {
+    text: String,
+    lines: BTreeSet<u32>,
+    branches: BTreeSet<u32>,
+    sorted: bool,
+    panicked: bool,
+}
+
+fn observe_create(ff: &FileFilter, path: &Path) -> CreateObs {
+    let r = guarded(AssertUnwindSafe(|| ff.create(path)));
+    match r {
+        Err(p) => CreateObs {
+            text: format!("panic {}", p),
+            lines: BTreeSet::new(),
+            branches: BTreeSet::new(),
+            sorted: true,
+            panicked: true,
+        },
+        Ok(v) => {
+            let mut parts = vec![];
+            let mut lines = BTreeSet::new();
+            let mut branches = BTreeSet::new();
+            let mut sorted = true;
+            let mut last: Option<u32> = None;
+            for f in &v {
+                let n = match f {
+                    FilterType::Line(n) => {
+                        parts.push(format!("L{}", n));
+                        lines.insert(*n);
+                        *n
+                    }
+                    FilterType::Branch(n) => {
+                        parts.push(format!("B{}", n));
+                        branches.insert(*n);
+                        *n
+                    }
+                    FilterType::Both(n) => {
+                        parts.push(format!("X{}", n));
+                        lines.insert(*n);
+                        branches.insert(*n);
+                        *n
+                    }
+                };
+                if let Some(l) = last {
+                    if l >= n {
+                        sorted = false;
+                    }
+                }
+                last = Some(n);
+            }
+            CreateObs {
+                text: if parts.is_empty() {
+                    "-".into()
+                } else {
+                    parts.join(",")
+                },
+                lines,
+                branches,
+                sorted,
+                panicked: false,
+            }
+        }
+    }
+}
+
+fn place(c: &Case, path: &Path) {
+    match c.kind {
+        SrcKind::Text | SrcKind::NonUtf8 => std::fs::write(path, &c.file_bytes).unwrap(),
+        SrcKind::Missing => {
+            let _ = std::fs::remove_file(path);
+        }
+        SrcKind::Dir => {
+            let _ = std::fs::create_dir_all(path);
+        }
+    }
+}
+
+fn gen_cov(rng: &mut Rng, len: usize) -> CovResult {
+    let mut c = CovResult::default();
+    let dense = rng.chance(1, 2);
+    for k in 0..=(len as u32 + 2) {
+        if rng.chance(if dense { 4 } else { 2 }, 5) {
+            c.lines
+                .insert(k, *rng.pick(&[0u64, 1, 2, 7, 1000, u64::MAX]));
+        }
+        if rng.chance(if dense { 3 } else { 1 }, 5) {
+            let l = rng.range(1, 3);
+            c.branches
+                .insert(k, (0..l).map(|_| rng.chance(1, 2)).collect());
+        }
+    }
+    for name in ["main", "f", "é∀"] {
+        if rng.chance(1, 3) {
+            c.functions.insert(
+                name.to_string(),
+                Function {
+                    start: rng.range(1, len as u64 + 1) as u32,
+                    executed: rng.chance(1, 2),
+                },
+            );
+        }
+    }
+    c
+}
+
+fn full_cov(len: usize) -> CovResult {
+    let mut c = CovResult::default();
+    for k in 0..=(len as u32 + 1) {
+        c.lines.insert(k, k as u64);
+        c.branches.insert(k, vec![true, false]);
+    }
+    c.functions.insert(
+        "f".into(),
+        Function {
+            start: 1,
+            executed: true,
+        },
+    );
+    c
+}
+
+fn case_json(c: &Case) -> Value {
+    json!({
+        "op": "c16",
+        "origin": c.origin,
+        "opts": optstr(&c.opts),
+        "options_on": (0..6).filter(|&i| c.opts[i]).map(|i| format!("{}={}", OPT_NAMES[i], PATSETS[c.patset].pats[i])).collect::<Vec<_>>(),
+        "patset": c.patset,
+        "src": c.kind.name(),
+        "text_hex": hex(&c.text),
+        "file_hex": hex(&c.file_bytes),
+        "text": String::from_utf8_lossy(&c.text),
+        "cov": show_cov(&c.cov),
+        "via_rewrite": c.via_rewrite,
+    })
+}
+
+const OPT_NAMES: [&str; 6] = [
+    "excl_line",
+    "excl_start",
+    "excl_stop",
+    "excl_br_line",
+    "excl_br_start",
+    "excl_br_stop",
+];
+
+fn case_from_json(v: &Value) -> Option<Case> {
+    let o = v["opts"].as_str()?;
+    if o.len() != 6 {
+        return None;
+    }
+    let mut opts = [false; 6];
+    for (i, ch) in o.chars().enumerate() {
+        opts[i] = ch == '1';
+    }
+    let text = unhex(v["text_hex"].as_str()?);
+    let file_bytes = v["file_hex"]
+        .as_str()
+        .map(unhex)
+        .unwrap_or_else(|| text.clone());
+    Some(Case {
+        opts,
+        patset: v["patset"].as_u64().unwrap_or(0) as usize % PATSETS.len(),
+        kind: SrcKind::parse(v["src"].as_str().unwrap_or("text")),
+        text,
+        file_bytes,
+        spec: None,
+        cov: parse_cov(v["cov"].as_str().unwrap_or("L;B;F")),
+        via_rewrite: v["via_rewrite"].as_bool().unwrap_or(true),
+        origin: "replay",
+    })
+}
+
+// ---------------------------------------------------------------------------------------------
+// Evaluation of a batch of cases: implementation, oracle, model
+
+struct Ctx {
+    re: Regexes,
+    src_dir: PathBuf,
+}
+
+fn rewrite_group(ctx: &Ctx, cases: &[Case], idxs: &[usize], names: &[String]) -> Vec<String> {
+    // all cases of a group share options and pattern set
+    let ff = ctx.re.filter(&cases[idxs[0]]);
+    let mut map: grcov::CovResultMap = fxmap();
+    for (&i, name) in idxs.iter().zip(names) {
+        map.insert(name.clone(), cases[i].cov.clone());
+    }
+    let none: Vec<String> = vec![];
+    let src = ctx.src_dir.clone();
+    let r = guarded(AssertUnwindSafe(|| {
+        grcov::rewrite_paths(map, None, Some(src.as_path()), None, false, &none, &none, None, ff)
+    }));
+    match r {
+        Err(p) => idxs.iter().map(|_| format!("panic {}", p)).collect(),
+        Ok(v) => {
+            let mut by_rel: BTreeMap<String, String> = BTreeMap::new();
+            for (_abs, rel, cov) in v {
+                by_rel.insert(rel.to_string_lossy().to_string(), show_cov(&cov));
+            }
+            names
+                .iter()
+                .map(|n| by_rel.get(n).cloned().unwrap_or_else(|| "absent".into()))
+                .collect()
+        }
+    }
+}
+
+/// expected record according to the property, computed from the spec alone
+fn expected_cov(c: &Case, spec: &Spec) -> CovResult {
+    let len = spec.line.len() - 1;
+    let mut e = c.cov.clone();
+    for n in 1..=len {
+        if spec.line[n] {
+            e.lines.remove(&(n as u32));
+        }
+        if spec.branch[n] {
+            e.branches.remove(&(n as u32));
+        }
+    }
+    e
+}
+
+fn evaluate(rep: &mut Report, ctx: &Ctx, cases: &[Case], tag: &str) {
+    let scratch = ctx.src_dir.join("scratch.c");
+    let mut reqs: Vec<String> = vec![];
+    let mut impl_out: Vec<String> = vec![];
+    // (case index, is_apply)
+    let mut owner: Vec<(usize, bool)> = vec![];
+    let mut all_bits: Vec<Vec<[bool; 6]>> = Vec::with_capacity(cases.len());
+    let mut create_obs: Vec<CreateObs> = Vec::with_capacity(cases.len());
+    let mut groups: BTreeMap<(String, usize), (Vec<usize>, Vec<String>)> = BTreeMap::new();
+    let mut apply_obs: BTreeMap<usize, String> = BTreeMap::new();
+
+    for (i, c) in cases.iter().enumerate() {
+        let name = format!("{}{}_{}.c", tag, i, c.kind.name());
+        let path = if c.via_rewrite {
+            ctx.src_dir.join(&name)
+        } else {
+            scratch.clone()
+        };
+        if !c.via_rewrite && c.kind != SrcKind::Text {
+            let _ = std::fs::remove_file(&path);
+            let _ = std::fs::remove_dir(&path);
+        }
+        place(c, &path);
+        let bs = ctx.re.bits(c);
+        let ff = ctx.re.filter(c);
+        let obs = observe_create(&ff, &path);
+        if !c.via_rewrite && c.kind == SrcKind::Dir {
+            let _ = std::fs::remove_dir(&path);
+        }
+        let readable = c.kind == SrcKind::Text;
+        reqs.push(format!(
+            "ffilter {} {} {}",
+            optstr(&c.opts),
+            if readable { 1 } else { 0 },
+            bits_str(&bs)
+        ));
+        impl_out.push(obs.text.clone());
+        owner.push((i, false));
+        if c.via_rewrite {
+            let g = groups
+                .entry((optstr(&c.opts), c.patset))
+                .or_insert_with(|| (vec![], vec![]));
+            g.0.push(i);
+            g.1.push(name);
+        }
+        all_bits.push(bs);
+        create_obs.push(obs);
+    }
+    for ((_o, _p), (idxs, names)) in &groups {
+        for (chunk_i, chunk_n) in idxs.chunks(64).zip(names.chunks(64)) {
+            let outs = rewrite_group(ctx, cases, chunk_i, chunk_n);
+            for (&i, o) in chunk_i.iter().zip(outs) {
+                apply_obs.insert(i, o);
+            }
+        }
+    }
+    for (i, c) in cases.iter().enumerate() {
+        if let Some(o) = apply_obs.get(&i) {
+            let readable = c.kind == SrcKind::Text;
+            reqs.push(format!(
+                "ffapply {} {} {} {}",
+                optstr(&c.opts),
+                if readable { 1 } else { 0 },
+                bits_str(&all_bits[i]),
+                show_cov(&c.cov)
+            ));
+            impl_out.push(o.clone());
+            owner.push((i, true));
+        }
+    }
+    let model_out = run_model_named("gm_c16", &reqs, &rep.workdir, tag);
+
+    // ---- property oracle on every case (independent of the model) ----------------------------
+    let mut verdicts: Vec<Verdict> = Vec::with_capacity(cases.len());
+    for (i, c) in cases.iter().enumerate() {
+        let readable = c.kind == SrcKind::Text;
+        let bs = &all_bits[i];
+        let spec = spec_of(&c.opts, bs, readable);
+        let obs = &create_obs[i];
+        let len = bs.len() as u32;
+        let phantom = if readable { phantom_line(&c.text) } else { None };
+        let mut v = if obs.panicked {
+            Verdict::Fails(format!("FileFilter::create panicked: {}", obs.text))
+        } else if !obs.sorted {
+            Verdict::Fails("filter list not strictly increasing (a line named twice or out of order)".into())
+        } else {
+            // every line of the file, the keys around it, and every number the code named
+            let mut keys: BTreeSet<u32> = (0..=len + 2).collect();
+            keys.extend(obs.lines.iter());
+            keys.extend(obs.branches.iter());
+            judge(
+                &spec,
+                phantom,
+                &mut keys.into_iter(),
+                &|k| obs.lines.contains(&k),
+                &|k| obs.branches.contains(&k),
+            )
+        };
+        if let (Some(got), false) = (apply_obs.get(&i), matches!(v, Verdict::Fails(_))) {
+            // the record after rewrite_paths against the record the property predicts
+            if got.starts_with("panic") || got == "absent" {
+                v = Verdict::Fails(format!("rewrite_paths: {}", got));
+            } else {
+                let got = parse_cov(got);
+                let want = expected_cov(c, &spec);
+                if got != want {
+                    if got.functions != c.cov.functions {
+                        v = Verdict::Fails("rewrite_paths changed the functions of the record".into());
+                    } else {
+                        let mut keys: BTreeSet<u32> = BTreeSet::new();
+                        keys.extend(c.cov.lines.keys());
+                        keys.extend(c.cov.branches.keys());
+                        keys.extend(got.lines.keys());
+                        keys.extend(got.branches.keys());
+                        // values of surviving keys must be untouched
+                        let touched = got.lines.iter().any(|(k, x)| c.cov.lines.get(k) != Some(x))
+                            || got.branches.iter().any(|(k, x)| c.cov.branches.get(k) != Some(x));
+                        if touched {
+                            v = Verdict::Fails("rewrite_paths changed or invented a surviving entry".into());
+                        } else {
+                            // "removed" is only observable on keys the record has: keys it lacks
+                            // are reported as the property predicts
+                            let n_of = |k: u32| k as usize;
+                            let slen = spec.line.len() - 1;
+                            let v2 = judge(
+                                &spec,
+                                phantom,
+                                &mut keys.into_iter(),
+                                &|k| {
+                                    if c.cov.lines.contains_key(&k) {
+                                        !got.lines.contains_key(&k)
+                                    } else {
+                                        n_of(k) >= 1 && n_of(k) <= slen && spec.line[n_of(k)]
+                                    }
+                                },
+                                &|k| {
+                                    if c.cov.branches.contains_key(&k) {
+                                        !got.branches.contains_key(&k)
+                                    } else {
+                                        n_of(k) >= 1 && n_of(k) <= slen && spec.branch[n_of(k)]
+                                    }
+                                },
+                            );
+                            match (&v, v2) {
+                                (_, Verdict::Fails(w)) => v = Verdict::Fails(format!("rewrite_paths: {}", w)),
+                                (Verdict::Holds, Verdict::Known(w)) => v = Verdict::Known(w),
+                                _ => {}
+                            }
+                        }
+                    }
+                }
+            }
+        }
+        // ---- bookkeeping -----------------------------------------------------------------------
+        let excluded_any = (1..spec.line.len()).any(|n| spec.line[n] || spec.branch[n]);
+        let canon = format!(
+            "{} {} {} {} {}",
+            optstr(&c.opts),
+            c.kind.name(),
+            bits_str(bs),
+            fnv64(&c.file_bytes),
+            show_cov(&c.cov)
+        );
+        rep.case(&canon, excluded_any);
+        rep.count(&format!("origin.{}", c.origin));
+        rep.count(&format!("src.{}", c.kind.name()));
+        rep.count(&format!("patset.{}", PATSETS[c.patset].name));
+        rep.count(&format!("options.on={}", c.opts.iter().filter(|&&b| b).count()));
+        if c.via_rewrite {
+            rep.count("via.rewrite_paths");
+        }
+        if c.kind == SrcKind::Text {
+            let t = &c.file_bytes;
+            let crlf = t.windows(2).any(|w| w == b"\r\n");
+            let lf = t
+                .iter()
+                .enumerate()
+                .any(|(j, &b)| b == b'\n' && (j == 0 || t[j - 1] != b'\r'));
+            rep.count(match (lf, crlf) {
+                (true, true) => "eol.mixed",
+                (false, true) => "eol.crlf",
+                (true, false) => "eol.lf",
+                _ => "eol.single_line",
+            });
+            rep.count(if t.last() == Some(&b'\n') {
+                "final_newline.yes"
+            } else {
+                "final_newline.no"
+            });
+            let n = bs.len();
+            let eff = |j: usize, k: usize| c.opts[k] && bs[j][k];
+            if n > 0 && (spec.in_line_region[n] || spec.in_br_region[n]) {
+                rep.count("scenario.unterminated_region");
+            }
+            if (0..n).any(|j| (eff(j, 1) && eff(j, 2)) || (eff(j, 4) && eff(j, 5))) {
+                rep.count("scenario.start_and_stop_on_one_line");
+            }
+            if (1..=n).any(|j| spec.in_line_region[j] && spec.in_br_region[j]) {
+                rep.count("scenario.overlapping_line_and_branch_regions");
+            }
+            if (2..=n).any(|j| {
+                (eff(j - 1, 1) && spec.in_line_region[j - 1]) || (eff(j - 1, 4) && spec.in_br_region[j - 1])
+            }) {
+                rep.count("scenario.start_inside_open_region");
+            }
+            if (1..=n).any(|j| {
+                (eff(j - 1, 2) && (j == 1 || !spec.in_line_region[j - 1]))
+                    || (eff(j - 1, 5) && (j == 1 || !spec.in_br_region[j - 1]))
+            }) {
+                rep.count("scenario.stop_without_open_region");
+            }
+            if (1..=n).any(|j| {
+                (spec.line_marker[j] && spec.in_br_region[j]) || (spec.br_marker[j] && spec.in_line_region[j])
+            }) {
+                rep.count("scenario.single_marker_inside_other_region");
+            }
+            if let Some(p) = phantom {
+                if spec.line[p as usize] || spec.branch[p as usize] {
+                    rep.count("scenario.empty_piece_after_final_newline_in_region_or_marked");
+                }
+            }
+            if (1..=n).any(|j| spec.line_marker[j] && spec.br_marker[j]) {
+                rep.count("scenario.both_single_markers_on_one_line");
+            }
+            rep.count_n("result.Line", obs.text.matches('L').count() as u64);
+            rep.count_n("result.Branch", obs.text.matches('B').count() as u64);
+            rep.count_n("result.Both", obs.text.matches('X').count() as u64);
+            rep.count_n("result.None", (n - obs.lines.union(&obs.branches).count().min(n)) as u64);
+        }
+        verdicts.push(v);
+    }
+
+    // ---- report oracle failures (shrinking the first few of each class) ------------------------
+    for (i, c) in cases.iter().enumerate() {
+        match &verdicts[i] {
+            Verdict::Holds => {}
+            Verdict::Known(w) => {
+                rep.count("oracle.known_defect_cases");
+                let already = rep
+                    .failures
+                    .iter()
+                    .filter(|f| f.finding.as_deref() == Some(FINDING))
+                    .count();
+                if already < 40 {
+                    let (mc, mw) = if already < 6 {
+                        shrink(ctx, c, &verdicts[i])
+                    } else {
+                        (c.clone(), w.clone())
+                    };
+                    let mut cj = case_json(&mc);
+                    cj["impl_create"] = json!(create_text(ctx, &mc));
+                    rep.fail(
+                        "oracle",
+                        Some(FINDING),
+                        format!("the unchanged code keeps data the markers exclude (minimised): {}", mw),
+                        cj,
+                    );
+                } else {
+                    rep.findings_seen.insert(FINDING.to_string());
+                }
+            }
+            Verdict::Fails(w) => {
+                rep.count("oracle.unexplained_failures");
+                let (mc, mw) = shrink(ctx, c, &verdicts[i]);
+                let mut cj = case_json(&mc);
+                cj["impl_create"] = json!(create_text(ctx, &mc));
+                cj["before_shrinking"] = json!(w);
+                rep.fail("oracle", None, format!("property violated (minimised): {}", mw), cj);
+            }
+        }
+    }
+
+    // ---- the tie ---------------------------------------------------------------------------
+    let mut sampled = [tag == "ex", tag == "ex"];
+    for r in 0..reqs.len() {
+        let (i, is_apply) = owner[r];
+        let interesting = if is_apply {
+            impl_out[r] != show_cov(&cases[i].cov)
+        } else {
+            tag != "rand" || impl_out[r].contains('X')
+        };
+        if !sampled[is_apply as usize] && interesting && cases[i].kind == SrcKind::Text {
+            sampled[is_apply as usize] = true;
+            rep.sample(json!({"request": reqs[r], "impl": impl_out[r], "model": model_out[r],
+                              "source": String::from_utf8_lossy(&cases[i].text)}));
+        }
+        if impl_out[r] != model_out[r] {
+            rep.disagreements_checked += 1;
+            if matches!(verdicts[i], Verdict::Fails(_)) {
+                // already reported as an oracle failure: that is the failing input
+                continue;
+            }
+            let mut cj = case_json(&cases[i]);
+            cj["request"] = json!(reqs[r]);
+            cj["impl"] = json!(impl_out[r]);
+            cj["model"] = json!(model_out[r]);
+            rep.fail(
+                "disagreement",
+                None,
+                if is_apply {
+                    "rewrite_paths' removal differs from FileFilter.rewrite (C16_coverage_* no longer transfer)".into()
+                } else {
+                    "FileFilter::create differs from FileFilter.create (theorems C16_* no longer transfer)".into()
+                },
+                cj,
+            );
+        }
+    }
+}
+
+fn create_text(ctx: &Ctx, c: &Case) -> String {
+    let path = ctx.src_dir.join("shrink.c");
+    let _ = std::fs::remove_file(&path);
+    let _ = std::fs::remove_dir(&path);
+    place(c, &path);
+    let o = observe_create(&ctx.re.filter(c), &path);
+    if c.kind == SrcKind::Dir {
+        let _ = std::fs::remove_dir(&path);
+    }
+    o.text
+}
+
+/// verdict of one case through `create` only (used while shrinking)
+fn quick_verdict(ctx: &Ctx, c: &Case) -> Verdict {
+    let path = ctx.src_dir.join("shrink.c");
+    let _ = std::fs::remove_file(&path);
+    let _ = std::fs::remove_dir(&path);
+    place(c, &path);
+    let obs = observe_create(&ctx.re.filter(c), &path);
+    if c.kind == SrcKind::Dir {
+        let _ = std::fs::remove_dir(&path);
+    }
+    let bs = ctx.re.bits(c);
+    let spec = spec_of(&c.opts, &bs, c.kind == SrcKind::Text);
+    if obs.panicked {
+        return Verdict::Fails(obs.text);
+    }
+    if !obs.sorted {
+        return Verdict::Fails("filter list not strictly increasing".into());
+    }
+    let mut keys: BTreeSet<u32> = (0..=bs.len() as u32 + 2).collect();
+    keys.extend(obs.lines.iter());
+    keys.extend(obs.branches.iter());
+    judge(
+        &spec,
+        if c.kind == SrcKind::Text {
+            phantom_line(&c.text)
+        } else {
+            None
+        },
+        &mut keys.into_iter(),
+        &|k| obs.lines.contains(&k),
+        &|k| obs.branches.contains(&k),
+    )
+}
+
+fn same_class(a: &Verdict, b: &Verdict) -> bool {
+    matches!(
+        (a, b),
+        (Verdict::Known(_), Verdict::Known(_)) | (Verdict::Fails(_), Verdict::Fails(_))
+    )
+}
+
+/// greedy shrinking on the structured form: drop lines, clear markers, switch options off,
+/// simplify fillers and line endings, while the verdict stays in the same class
+fn shrink(ctx: &Ctx, c: &Case, v: &Verdict) -> (Case, String) {
+    let text_of = |v: &Verdict| match v {
+        Verdict::Known(w) | Verdict::Fails(w) => w.clone(),
+        Verdict::Holds => String::new(),
+    };
+    let spec = match (&c.spec, c.kind) {
+        (Some(s), SrcKind::Text) => s.clone(),
+        _ => return (c.clone(), text_of(v)),
+    };
+    // the failure must be visible through create alone, otherwise keep the case as it is
+    let v0 = quick_verdict(ctx, c);
+    if !same_class(&v0, v) {
+        return (c.clone(), text_of(v));
+    }
+    let mut cur = c.clone();
+    let mut cur_spec = spec;
+    let mut cur_v = v0;
+    let rebuild = |base: &Case, s: &Vec<LineSpec>, opts: [bool; 6]| {
+        let mut n = base.clone();
+        n.opts = opts;
+        n.text = render(&PATSETS[base.patset], s);
+        n.file_bytes = n.text.clone();
+        n.spec = Some(s.clone());
+        n
+    };
+    loop {
+        let mut changed = false;
+        // drop a line
+        let mut j = 0;
+        while j < cur_spec.len() && cur_spec.len() > 1 {
+            let mut s = cur_spec.clone();
+            s.remove(j);
+            let n = rebuild(&cur, &s, cur.opts);
+            let nv = quick_verdict(ctx, &n);
+            if same_class(&nv, &cur_v) {
+                cur = n;
+                cur_spec = s;
+                cur_v = nv;
+                changed = true;
+            } else {
+                j += 1;
+            }
+        }
+        // clear a marker, simplify filler / eol
+        for j in 0..cur_spec.len() {
+            for k in 0..8 {
+                let mut s = cur_spec.clone();
+                if k < 6 {
+                    if !s[j].want[k] {
+                        continue;
+                    }
+                    s[j].want[k] = false;
+                } else if k == 6 {
+                    if s[j].filler == 0 {
+                        continue;
+                    }
+                    s[j].filler = 0;
+                } else {
+                    let want = if j + 1 == s.len() { 3 } else { 0 };
+                    if s[j].eol == want {
+                        continue;
+                    }
+                    s[j].eol = want;
+                }
+                let n = rebuild(&cur, &s, cur.opts);
+                let nv = quick_verdict(ctx, &n);
+                if same_class(&nv, &cur_v) {
+                    cur = n;
+                    cur_spec = s;
+                    cur_v = nv;
+                    changed = true;
+                }
+            }
+        }
+        // switch an option off
+        for k in 0..6 {
+            if cur.opts[k] {
+                let mut o = cur.opts;
+                o[k] = false;
+                let n = rebuild(&cur, &cur_spec, o);
+                let nv = quick_verdict(ctx, &n);
+                if same_class(&nv, &cur_v) {
+                    cur = n;
+                    cur_v = nv;
+                    changed = true;
+                }
+            }
+        }
+        if !changed {
+            break;
+        }
+    }
+    cur.cov = full_cov(cur_spec.len());
+    (cur, text_of(&cur_v))
+}
+
+// ---------------------------------------------------------------------------------------------
+// Generators
+
+fn text_case(
+    opts: [bool; 6],
+    patset: usize,
+    spec: Vec<LineSpec>,
+    cov: CovResult,
+    via_rewrite: bool,
+    origin: &'static str,
+) -> Case {
+    let text = render(&PATSETS[patset], &spec);
+    Case {
+        opts,
+        patset,
+        kind: SrcKind::Text,
+        file_bytes: text.clone(),
+        text,
+        spec: Some(spec),
+        cov,
+        via_rewrite,
+        origin,
+    }
+}
+
+fn opts_of(mask: u32) -> [bool; 6] {
+    let mut o = [false; 6];
+    for i in 0..6 {
+        o[i] = mask & (1 << i) != 0;
+    }
+    o
+}
+
+/// minimal witnesses of the defect and the fixture of the repository's own test; run first
+fn witnesses() -> Vec<Case> {
+    let l = |bits: &[usize]| {
+        let mut w = [false; 6];
+        for &b in bits {
+            w[b] = true;
+        }
+        LineSpec {
+            want: w,
+            filler: 0,
+            eol: 0,
+        }
+    };
+    // last line without terminator
+    let nl = |mut x: LineSpec| {
+        x.eol = 3;
+        x
+    };
+    let all = [true; 6];
+    vec![
+        // A: branch region start, then a line marker (= witnessA of Props/C16.lean)
+        text_case(all, 0, vec![l(&[4]), nl(l(&[0]))], full_cov(3), true, "witness"),
+        // B: line region start, then a branch-line marker (= witnessB)
+        text_case(all, 0, vec![l(&[1]), nl(l(&[3]))], full_cov(3), true, "witness"),
+        // start and stop on one line of an open region; unterminated at the end
+        text_case(
+            all,
+            0,
+            vec![l(&[1]), l(&[]), l(&[1, 2]), l(&[2]), l(&[]), l(&[4]), l(&[4, 5]), l(&[])],
+            full_cov(9),
+            true,
+            "witness",
+        ),
+        // the shape of test_rewrite_paths_filter_lines_and_branches: disjoint regions
+        text_case(
+            all,
+            0,
+            vec![
+                l(&[]),
+                l(&[0]),
+                l(&[]),
+                l(&[1]),
+                l(&[]),
+                l(&[2]),
+                l(&[3]),
+                l(&[4]),
+                l(&[]),
+                l(&[5]),
+                l(&[0, 3]),
+                l(&[]),
+            ],
+            full_cov(13),
+            true,
+            "witness",
+        ),
+    ]
+}
+
+/// every option subset × every text of `len` lines whose lines range over all combinations of
+/// the markers of the configured options (a marker of an unconfigured option cannot matter;
+/// that itself is checked by the random stream)
+fn exhaustive(len: usize, via_rewrite: bool, sink: &mut dyn FnMut(Case)) {
+    let mut counter = 0usize;
+    for mask in 0..64u32 {
+        let opts = opts_of(mask);
+        let on: Vec<usize> = (0..6).filter(|&i| opts[i]).collect();
+        let kinds = 1usize << on.len();
+        let total = kinds.pow(len as u32);
+        for t in 0..total {
+            let mut spec = vec![];
+            let mut x = t;
+            for _ in 0..len {
+                let k = x % kinds;
+                x /= kinds;
+                let mut w = [false; 6];
+                for (b, &i) in on.iter().enumerate() {
+                    w[i] = k & (1 << b) != 0;
+                }
+                spec.push(LineSpec {
+                    want: w,
+                    filler: 0,
+                    eol: 0,
+                });
+            }
+            // vary the line endings with the case number: LF, CRLF, no final newline
+            counter += 1;
+            let mode = counter % 3;
+            for (j, l) in spec.iter_mut().enumerate() {
+                l.eol = match mode {
+                    0 => 0,
+                    1 => 1,
+                    _ => {
+                        if j + 1 == len {
+                            3
+                        } else {
+                            0
+                        }
+                    }
+                };
+            }
+            let cov = if via_rewrite {
+                full_cov(len + 1)
+            } else {
+                CovResult::default()
+            };
+            sink(text_case(opts, 0, spec, cov, via_rewrite, "exhaustive"));
+        }
+    }
+}
+
+/// all texts of `len` lines over a reduced alphabet of ten line kinds, all options on
+fn exhaustive_reduced(len: usize, sink: &mut dyn FnMut(Case)) {
+    const KINDS: [&[usize]; 10] = [
+        &[],
+        &[0],
+        &[1],
+        &[2],
+        &[1, 2],
+        &[3],
+        &[4],
+        &[5],
+        &[4, 5],
+        &[0, 3],
+    ];
+    let total = 10usize.pow(len as u32);
+    for t in 0..total {
+        let mut spec = vec![];
+        let mut x = t;
+        for j in 0..len {
+            let k = x % 10;
+            x /= 10;
+            let mut w = [false; 6];
+            for &b in KINDS[k] {
+                w[b] = true;
+            }
+            spec.push(LineSpec {
+                want: w,
+                filler: 0,
+                eol: if j + 1 == len { 3 } else { (t % 2) as u8 },
+            });
+        }
+        sink(text_case(
+            [true; 6],
+            0,
+            spec,
+            CovResult::default(),
+            false,
+            "exhaustive_reduced",
+        ));
+    }
+}
+
+fn random_case(rng: &mut Rng) -> Case {
+    let opts = match rng.below(8) {
+        0 | 1 => [true; 6],
+        2 => {
+            // one to three options
+            let mut o = [false; 6];
+            for _ in 0..rng.range(1, 3) {
+                o[rng.below(6) as usize] = true;
+            }
+            o
+        }
+        _ => opts_of(rng.below(64) as u32),
+    };
+    let patset = match rng.below(10) {
+        0..=3 => 0,
+        4 | 5 => 1,
+        6 | 7 => 2,
+        _ => 3,
+    };
+    let len = if rng.chance(1, 6) {
+        rng.range(1, 2)
+    } else {
+        rng.range(2, 12)
+    } as usize;
+    // marker density and a bias towards the configured options
+    let dens = *rng.pick(&[2u64, 3, 5]);
+    let eol_mode = rng.below(4); // 0 LF, 1 CRLF, 2 mixed, 3 mixed with CRCRLF
+    let mut spec = vec![];
+    for j in 0..len {
+        let mut w = [false; 6];
+        if rng.chance(dens, 6) {
+            for k in 0..6 {
+                // stops a little rarer than starts so that regions have some length
+                let p = if k == 2 || k == 5 { 1 } else { 2 };
+                w[k] = rng.chance(p, 8);
+            }
+            if !w.iter().any(|&b| b) {
+                w[rng.below(6) as usize] = true;
+            }
+        }
+        let last = j + 1 == len;
+        let eol = match eol_mode {
+            0 => 0,
+            1 => 1,
+            2 => rng.below(2) as u8,
+            _ => rng.below(3) as u8,
+        };
+        let eol = if last {
+            match rng.below(6) {
+                0 | 1 => 3,
+                2 => 4,
+                _ => eol,
+            }
+        } else {
+            eol
+        };
+        spec.push(LineSpec {
+            want: w,
+            filler: if rng.chance(1, 2) {
+                0
+            } else {
+                rng.below(FILLERS.len() as u64) as usize
+            },
+            eol,
+        });
+    }
+    let nlines = {
+        let t = render(&PATSETS[patset], &spec);
+        split_lines(&t).len()
+    };
+    let cov = gen_cov(rng, nlines);
+    let mut c = text_case(opts, patset, spec, cov, true, "random");
+    // the source cannot be read
+    match rng.below(40) {
+        0 => {
+            c.kind = SrcKind::Missing;
+            c.origin = "unreadable";
+        }
+        1 => {
+            c.kind = SrcKind::Dir;
+            c.origin = "unreadable";
+        }
+        2 | 3 => {
+            c.kind = SrcKind::NonUtf8;
+            c.origin = "unreadable";
+            let pos = rng.below(c.file_bytes.len() as u64 + 1) as usize;
+            let bad: &[u8] = *rng.pick(&[&[0xffu8][..], &[0xe9][..], &[0xc3][..], &[0xed, 0xa0, 0x80][..]]);
+            let mut b = c.file_bytes[..pos].to_vec();
+            b.extend_from_slice(bad);
+            b.extend_from_slice(&c.file_bytes[pos..]);
+            // 0xc3 followed by a continuation byte could be valid: make sure it is not UTF-8
+            if std::str::from_utf8(&b).is_ok() {
+                b.push(0xff);
+            }
+            c.file_bytes = b;
+        }
+        _ => {}
+    }
+    c
+}
+
+fn ctx_new(rep: &Report) -> Ctx {
+    let src = rep.workdir.join("src");
+    std::fs::create_dir_all(&src).unwrap();
+    Ctx {
+        re: Regexes::new(),
+        src_dir: std::fs::canonicalize(&src).unwrap(),
+    }
+}
+
+pub fn run(rep: &mut Report) {
+    rep.rule = "source texts built line by line from literal markers of four regex sets (lcov literals, \
+                ^/$-anchored, one regex shared by start and stop, non-ASCII with an empty-line marker), fillers \
+                (UTF-8, embedded CR, tabs), LF / CRLF / mixed / CRCRLF endings, with and without final newline or \
+                lone final CR; all 64 option subsets; coverage records with keys 0..=lines+2; plus every text of \
+                <=2 lines (quick) / <=3 lines (thorough) over all marker combinations of every option subset, and \
+                unreadable sources (missing, directory, not UTF-8). Each case goes through FileFilter::create and \
+                (marked via.rewrite_paths) through rewrite_paths. non-trivial = the property excludes at least one \
+                line or branch of the file; distinct = distinct (options, source kind, per-line match bits, file \
+                bytes, record)"
+        .to_string();
+    let ctx = ctx_new(rep);
+    let mut rng = Rng::new(rep.seed ^ 0xC16);
+
+    // ---- witnesses / corpus first --------------------------------------------------------------
+    evaluate(rep, &ctx, &witnesses(), "wit");
+
+    // ---- exhaustive small texts ----------------------------------------------------------------
+    {
+        let mut ex = vec![];
+        exhaustive(1, true, &mut |c| ex.push(c));
+        exhaustive(2, true, &mut |c| ex.push(c));
+        evaluate(rep, &ctx, &ex, "ex");
+    }
+
+    // ---- random structured texts ---------------------------------------------------------------
+    let n = rep.budget(20_000, 20);
+    let mut done = 0;
+    while done < n {
+        let k = (n - done).min(20_000);
+        let cases: Vec<Case> = (0..k).map(|_| random_case(&mut rng)).collect();
+        evaluate(rep, &ctx, &cases, "rand");
+        // the source files of this chunk are no longer needed
+        let _ = std::fs::remove_dir_all(&ctx.src_dir);
+        std::fs::create_dir_all(&ctx.src_dir).unwrap();
+        done += k;
+    }
+
+    if rep.thorough() {
+        let mut buf: Vec<Case> = vec![];
+        {
+            let mut sink = |c: Case| {
+                buf.push(c);
+                if buf.len() >= 40_000 {
+                    evaluate(rep, &ctx, &buf, "exh");
+                    buf.clear();
+                }
+            };
+            exhaustive(3, false, &mut sink);
+            exhaustive_reduced(4, &mut sink);
+            exhaustive_reduced(5, &mut sink);
+        }
+        if !buf.is_empty() {
+            evaluate(rep, &ctx, &buf, "exh");
+        }
+    }
+}
+
+pub fn replay(rep: &mut Report, case: &serde_json::Value) {
+    let ctx = ctx_new(rep);
+    match case_from_json(case) {
+        Some(c) => evaluate(rep, &ctx, &[c], "replay"),
+        None => rep
+            .notes
+            .push("replay: not a C16 case (needs opts, text_hex)".into()),
+    }
+}
 
 fn main() {
+    // rewrite_paths runs on rayon's global pool; hundreds of small calls on a many-core machine
+    // spend their time in pool wake-ups, and parallelism is irrelevant to this property
+    if std::env::var_os("RAYON_NUM_THREADS").is_none() {
+        std::env::set_var("RAYON_NUM_THREADS", "2");
+    }
     corrlib::run_main("C16", run, replay);
 }
